@@ -88,7 +88,9 @@ def make_ds(cfg):
       graft_type=graft, nesterov=cfg["nesterov"], batch_axis_name=None,
       moving_average_for_momentum=cfg["moving_avg"], relative_matrix_epsilon=cfg["rel_eps"],
       skip_preconditioning_rank_lt=1, eigh=cfg["eigh"], generate_training_metrics=True,
-      inverse_failure_threshold=cfg.get("ift", 0.1))
+      inverse_failure_threshold=cfg.get("ift", 0.1),
+      **(dict(frequent_directions=True, compression_rank=cfg["fd"], reuse_preconditioner=True)
+         if cfg.get("fd") else {}))
 
 
 def make_tf(cfg):
